@@ -648,9 +648,13 @@ func (vc *VC) appendCall(c *ssa.CallCommon, v *ssa.Call, pos token.Pos) {
 		vc.declConst(an, "(Array Int "+es+")")
 		vc.assume(fmt.Sprintf("(forall ((i Int)) (! (=> (or (< i %s) (>= i (+ %s %s))) (= (select %s (idx %s i)) (select %s (idx %s i)))) :pattern ((select %s (idx %s i)))))", slen, slen, n, an, soff, oldA, soff, an, soff))
 		vc.assume(fmt.Sprintf("(forall ((i Int)) (! (=> (and (<= %s i) (< i (+ %s %s))) (= (select %s (idx %s i)) (select (select %s (s_arr %s)) (idx (s_off %s) (- i %s))))) :pattern ((select %s (idx %s i)))))", slen, slen, n, an, soff, E, t.S, t.S, slen, an, soff))
-		newA = an
+		newA = fmt.Sprintf("(ite (= %s 0) %s %s)", n, oldA, an)
+	}
+	if vc.isLocalSliceValue(c.Args[0], 0) {
+		vc.writeRoot = localMark
 	}
 	vc.setComp(ck, cs, fmt.Sprintf("(store %s %s %s)", E, narr, newA))
+	vc.writeRoot = nil
 	ncap := vc.fresh("ncap")
 	vc.declConst(ncap, "Int")
 	vc.global(fmt.Sprintf("(>= %s 0)", ncap))
@@ -918,11 +922,31 @@ func (vc *VC) frame(x *ssa.Return) {
 	if vc.spec == nil || vc.dry {
 		return
 	}
+	for _, fo := range vc.frameConds(vc.heap, false) {
+		if fo.ghost {
+			vc.oblige(fmt.Sprintf("frame[%s]", fo.comp[2:]), "frame", fo.cond, "ghost not in modifies", x.Pos())
+		} else {
+			vc.oblige(fmt.Sprintf("frame[%s]", fo.comp), "frame", fo.cond, "heap component unchanged at pre-existing references outside modifies", x.Pos())
+		}
+	}
+}
+
+type frameCond struct {
+	comp  string
+	cond  string
+	ghost bool
+}
+
+// frameConds: for every heap component whose version in h differs from the entry version, the condition "unchanged at
+// every reference that existed at function entry, except where a modifies clause allows a change". With quant the
+// reference is universally quantified (usable as an assumption / invariant: the spec builtin framed()); without, it is a
+// fresh constant (obligation form).
+func (vc *VC) frameConds(h Heap, quant bool) []frameCond {
 	// components whose current version differs from the entry version must be covered by modifies,
 	// except at references allocated by this function.
 	for _, m := range vc.spec.Modifies {
 		if m.Text == "*" {
-			return
+			return nil
 		}
 	}
 	top0 := vc.getCompIn(vc.entryHeap, "top", "Int")
@@ -996,10 +1020,11 @@ func (vc *VC) frame(x *ssa.Return) {
 		}
 	}
 	var keys []string
-	for k := range vc.heap.m {
+	for k := range h.m {
 		keys = append(keys, k)
 	}
 	sortStrings(keys)
+	var out []frameCond
 	for _, k := range keys {
 		if k == "top" || strings.HasPrefix(k, "ghost|") || allowAllComp[k] {
 			continue
@@ -1008,20 +1033,23 @@ func (vc *VC) frame(x *ssa.Return) {
 		if c == nil || c.sort == "" {
 			continue
 		}
-		cur := vc.heap.m[k]
+		cur := h.m[k]
 		init := vc.getCompIn(vc.entryHeap, k, c.sort)
 		if cur == init {
 			continue
 		}
 		if strings.HasPrefix(k, "G|") {
-			vc.oblige(fmt.Sprintf("frame[%s]", k[2:]), "frame", fmt.Sprintf("(= %s %s)", cur, init), "ghost not in modifies", x.Pos())
+			out = append(out, frameCond{k, fmt.Sprintf("(= %s %s)", cur, init), true})
 			continue
 		}
 		if !strings.HasPrefix(c.sort, "(Array Int ") {
 			continue
 		}
-		r := vc.fresh("fr")
-		vc.declConst(r, "Int")
+		r := "frq"
+		if !quant {
+			r = vc.fresh("fr")
+			vc.declConst(r, "Int")
+		}
 		var ex []string
 		for _, a := range allows {
 			if a.comp == k {
@@ -1029,8 +1057,12 @@ func (vc *VC) frame(x *ssa.Return) {
 			}
 		}
 		cond := fmt.Sprintf("(=> (and (< 0 (root %s)) (<= (root %s) %s) %s) (= (select %s %s) (select %s %s)))", r, r, top0, "(and true "+strings.Join(ex, " ")+")", cur, r, init, r)
-		vc.oblige(fmt.Sprintf("frame[%s]", k), "frame", cond, "heap component unchanged at pre-existing references outside modifies", x.Pos())
+		if quant {
+			cond = fmt.Sprintf("(forall ((frq Int)) (! %s :pattern ((select %s frq))))", cond, cur)
+		}
+		out = append(out, frameCond{k, cond, false})
 	}
+	return out
 }
 
 func sortStrings(s []string) {
